@@ -148,8 +148,35 @@ class Prov:
         if not (first[0] == 'const' and first[1] == 0):
             steps.append(('i', first[1] if first[0] == 'const' else first))
         ty = sty
+        first_agg = True
         for ix in idx[1:]:
             ty = self._resolve(ty)
+            if first_agg and ty[0] == 'struct' and (len(ty) < 3 or not ty[2]):
+                # a view of the object as a literal struct of scalars ({ i64, i64 }: how clang passes a small struct
+                # by value): name the field after the object's own type when the layouts coincide
+                nat = self._natural_type(root, steps)
+                extra = []
+                for _ in range(4):
+                    if nat is None:
+                        break
+                    nt = self._resolve(nat) if nat[0] in ('named', 'struct') else nat
+                    if nt[0] != 'struct':
+                        break
+                    if len(nt[1]) == len(ty[1]) and all(a == b and a[0] in ('int', 'ptr') for a, b in zip(nt[1], ty[1])):
+                        ty = nt
+                        steps.extend(extra)
+                        break
+                    # the view may cover the first member (a struct at offset 0): descend
+                    if not nt[1]:
+                        break
+                    sn = nt[2] if len(nt) > 2 else None
+                    fn0 = None
+                    if sn:
+                        names = self.m.field_names(sn)
+                        fn0 = names[0] if names else None
+                    extra.append(('f', sn, 0, fn0))
+                    nat = nt[1][0]
+            first_agg = False
             if ty[0] == 'struct':
                 if ix[0] != 'const':
                     broken('prov: non-constant struct index')
@@ -177,6 +204,22 @@ class Prov:
             else:
                 broken('prov: gep into non-aggregate %r' % (ty,))
         return ('addr', root, tuple(steps))
+
+    def _natural_type(self, root, steps):
+        """declared type of the object an address denotes, when it can be read off the path"""
+        if steps:
+            last = steps[-1]
+            if last[0] == 'f' and last[1]:
+                fields = self.m.structs.get(last[1])
+                if fields and last[2] < len(fields):
+                    return fields[last[2]]
+            return None
+        if root[0] == 'G':
+            name = root[1].split(':')[-1]
+            g = self.m.globals.get(name)
+            if g is not None and g.ty is not None:
+                return g.ty
+        return None
 
     def _resolve(self, ty):
         if ty[0] == 'named':
